@@ -4,6 +4,7 @@ import (
 	"crypto/sha256"
 	"encoding/hex"
 	"fmt"
+	"regexp"
 	"strings"
 )
 
@@ -27,11 +28,13 @@ func monitorC12(w *World, r *Result) *Violation {
 }
 
 // panicSite extracts the first frame inside the project from a stack trace.
+var reDigits = regexp.MustCompile(`-?[0-9]+`)
+
 func panicSite(stack string) string {
 	lines := strings.Split(stack, "\n")
 	msg := ""
 	if len(lines) > 0 {
-		msg = lines[0]
+		msg = reDigits.ReplaceAllString(lines[0], "N")
 		if len(msg) > 60 {
 			msg = msg[:60]
 		}
